@@ -15,39 +15,31 @@ Qed.
 (* ---------------------------------------------------------------------- *)
 (* append_to_history *)
 Definition skip_append (h : hstore) (t : str) : bool :=
-  match t with
-  | [] => true
-  | _ => match ls h with [] => false | x :: _ => str_eqb x t end
-  end.
+  match ls h with [] => false | x :: _ => str_eqb x t end.
 
-Lemma append_to_history_eq s :
-  append_to_history s =
-  if skip_append (store s) (text s) then s else set_store s (append_string (store s) (text s)).
-Proof.
-  unfold append_to_history, skip_append. destruct (text s); [reflexivity|].
-  destruct (ls (store s)); [reflexivity|]. destruct (str_eqb _ _); reflexivity.
-Qed.
+Lemma append_to_history_empty s : text s = [] -> append_to_history s = s.
+Proof. intros H. unfold append_to_history. rewrite H. reflexivity. Qed.
 
 Lemma append_to_history_store s :
   store (append_to_history s) =
-  if skip_append (store s) (text s) then store s else append_string (store s) (text s).
-Proof. rewrite append_to_history_eq. destruct (skip_append _ _); reflexivity. Qed.
-
-(* skipped exactly when the text is empty or equals the newest entry of
-   History.get_strings() *)
-Lemma skip_append_spec h t :
-  skip_append h t = true <-> t = [] \/ exists r, get_strings h = r ++ [t].
+  match text s with
+  | [] => store s
+  | _ => let h := ensure_loaded (store s) in
+         if skip_append h (text s) then h else append_string h (text s)
+  end.
 Proof.
-  unfold skip_append, get_strings. destruct t as [|c t]; [split; auto|].
-  destruct (ls h) as [|x r] eqn:E.
-  - split; [discriminate|]. intros [H|[r H]]; [discriminate|]. cbn in H. destruct r; discriminate.
-  - rewrite str_eqb_eq. split.
-    + intros ->. right. exists (rev r). reflexivity.
-    + intros [H|[r' H]]; [discriminate|]. cbn [rev] in H. apply app_inj_tail in H. tauto.
+  unfold append_to_history, skip_append. destruct (text s); [reflexivity|].
+  cbv zeta. destruct (ls (ensure_loaded (store s))); [reflexivity|].
+  destruct (str_eqb _ _); reflexivity.
 Qed.
 
-Lemma get_strings_append h t : get_strings (append_string h t) = get_strings h ++ [t].
-Proof. reflexivity. Qed.
+Lemma append_to_history_fields s :
+  wl (append_to_history s) = wl s /\ wi (append_to_history s) = wi s /\
+  cur (append_to_history s) = cur s /\ hst (append_to_history s) = hst s.
+Proof.
+  unfold append_to_history. destruct (text s); [auto|].
+  destruct (ls (ensure_loaded (store s))); [auto|]. destruct (str_eqb _ _); auto.
+Qed.
 
 Lemma sto_append h t : sto (append_string h t) = sto h ++ [t].
 Proof. reflexivity. Qed.
@@ -110,7 +102,8 @@ Proof.
   rewrite T. eexists; split; [reflexivity|].
   destruct (keep c).
   - split; [exact St|]. split; [|discriminate]. intros _.
-    rewrite append_to_history_eq. destruct (skip_append _ _); unfold set_store; proj; auto.
+    destruct (append_to_history_fields s1) as (A1 & A2 & A3 & A4).
+    rewrite A1, A2, A3, A4. destruct Fw. auto.
   - split; [unfold reset; proj; exact St|]. split; [discriminate|]. intros _.
     unfold reset; proj. repeat split.
 Qed.
@@ -120,9 +113,6 @@ Qed.
    stored history; before that it is the part appended in this session. *)
 Definition Coh (h : hstore) : Prop :=
   exists pre, sto h = pre ++ rev (ls h) /\ (loaded h = true -> pre = []).
-
-Lemma coh_loaded h : Coh h -> loaded h = true -> get_strings h = sto h.
-Proof. intros (pre & E & P) Hl. rewrite (P Hl) in E. unfold get_strings. rewrite E. reflexivity. Qed.
 
 Lemma coh_append h t : Coh h -> Coh (append_string h t).
 Proof.
@@ -151,9 +141,54 @@ Qed.
 Lemma coh_init storage : Coh (mkst [] storage false).
 Proof. exists storage. proj. split; [rewrite app_nil_r; reflexivity | discriminate]. Qed.
 
+Lemma ensure_loaded_loaded h : loaded (ensure_loaded h) = true.
+Proof. unfold ensure_loaded. destruct (loaded h) eqn:E; [exact E | reflexivity]. Qed.
+
+(* under coherence get_strings() is the whole stored history *)
+Lemma coh_get_strings h : Coh h -> get_strings h = sto h.
+Proof. intros H. unfold get_strings. rewrite (coh_ls_ensure h H), rev_involutive. reflexivity. Qed.
+
 Lemma coh_append_to_history s : Coh (store s) -> Coh (store (append_to_history s)).
 Proof.
-  intros H. rewrite append_to_history_store. destruct (skip_append _ _); [exact H | apply coh_append, H].
+  intros H. rewrite append_to_history_store. destruct (text s); [exact H|]. cbv zeta.
+  destruct (skip_append _ _); [apply coh_ensure, H | apply coh_append, coh_ensure, H].
+Qed.
+
+(* the duplicate test in terms of the stored history *)
+Definition stored_skip (S : list str) (t : str) : bool :=
+  match t with
+  | [] => true
+  | _ => match rev S with [] => false | x :: _ => str_eqb x t end
+  end.
+
+Lemma stored_skip_spec S t :
+  stored_skip S t = true <-> t = [] \/ exists r, S = r ++ [t].
+Proof.
+  unfold stored_skip. destruct t as [|c t]; [split; auto|].
+  destruct (rev S) as [|x r] eqn:E.
+  - split; [discriminate|]. intros [H|[r H]]; [discriminate|].
+    rewrite H, rev_app_distr in E. discriminate.
+  - rewrite str_eqb_eq. split.
+    + intros ->. right. exists (rev r). rewrite <- (rev_involutive S), E. reflexivity.
+    + intros [H|[r' H]]; [discriminate|]. rewrite H, rev_app_distr in E. cbn in E. congruence.
+Qed.
+
+(* append_to_history: appended exactly once to the stored history (and to
+   get_strings()) unless the text is empty or equals the newest stored entry -
+   whether or not the history had been loaded. *)
+Lemma append_spec s :
+  Coh (store s) ->
+  let S := sto (store s) in
+  let h' := store (append_to_history s) in
+  sto h' = (if stored_skip S (text s) then S else S ++ [text s]) /\ get_strings h' = sto h'.
+Proof.
+  intros Hc S h'. assert (Hc' : Coh h') by (apply coh_append_to_history, Hc).
+  split; [|apply coh_get_strings, Hc'].
+  unfold h'. rewrite append_to_history_store. unfold stored_skip.
+  destruct (text s) as [|ch t] eqn:Et; [reflexivity|]. cbv zeta.
+  unfold skip_append. rewrite (coh_ls_ensure _ Hc). fold S.
+  destruct (rev S) as [|x r]; [rewrite sto_append, ensure_loaded_sto; reflexivity|].
+  destruct (str_eqb x (ch :: t)); [apply ensure_loaded_sto | rewrite sto_append, ensure_loaded_sto; reflexivity].
 Qed.
 
 Lemma write_back_store c s b : store (write_back c s b) = store s.
@@ -207,24 +242,30 @@ Proof.
   induction ops as [|o r IH]; intros s H; cbn [steps fold_left]; [exact H | apply IH, step_coh, H].
 Qed.
 
-(* with a loaded history the duplicate test is about the stored history *)
-Lemma skip_append_loaded h t :
-  Coh h -> loaded h = true ->
-  (skip_append h t = true <-> t = [] \/ exists r, sto h = r ++ [t]).
-Proof. intros Hc Hl. rewrite skip_append_spec, (coh_loaded h Hc Hl). reflexivity. Qed.
-
-(* ... and before it is loaded it is not: the newest stored entry is appended
-   again. *)
-Lemma accept_dedupe_unloaded_refuted :
-  exists c s, Inv s /\ Coh (store s) /\ verdict_ok c s /\ loaded (store s) = false /\
-    sto (store s) = [text s] /\ text s <> [] /\
-    sto (store (fst (validate_and_handle c s))) = [text s; text s].
+(* accepting: returned text, and the stored history gains it exactly once *)
+Lemma accept_history c s :
+  Coh (store s) -> verdict_ok c s ->
+  let r := validate_and_handle c s in
+  snd r = Some (text s) /\
+  sto (store (fst r)) =
+    (if stored_skip (sto (store s)) (text s) then sto (store s) else sto (store s) ++ [text s]) /\
+  get_strings (store (fst r)) = sto (store (fst r)).
 Proof.
-  exists (mkcfg false true None).
+  intros Hc Hv r. destruct (accept_valid c s Hv) as (s' & E & St & _).
+  unfold r. rewrite E. cbn [fst snd]. rewrite St.
+  destruct (append_spec s Hc) as (A & B). auto.
+Qed.
+
+(* Before the fix (finding C14-F1) only what had been loaded so far was
+   compared: accepting the newest stored entry before loading stored it again. *)
+Lemma append_dedupe_unloaded_pinned_refuted :
+  exists s, Inv s /\ Coh (store s) /\ loaded (store s) = false /\
+    sto (store s) = [text s] /\ text s <> [] /\
+    sto (store (append_to_history_pinned s)) = [text s; text s].
+Proof.
   exists (mk [[97]] 0 1 None None V_UNKNOWN false (mkst [] [[97]] false) None false false).
   repeat split; try (vm_compute; congruence); try reflexivity.
-  - apply coh_init.
-  - right. split; reflexivity.
+  apply coh_init.
 Qed.
 
 (* ---------------------------------------------------------------------- *)
